@@ -81,15 +81,12 @@ func hasTag(tags []string, p string) bool {
 	return false
 }
 
-// relevant: does obligation ob count for property p?
+// relevant: does obligation ob count for property p? Every obligation of a function selected for p does:
+// the clauses of a function are proved in order, each under the assumption of the earlier ones, so a clause
+// tagged p is only proved if the clauses before it - whatever their tags - are proved too (seeded change m52:
+// a failing C02 clause made the C19 clause after it hold vacuously).
 func relevant(ob *Obligation, p string) bool {
-	if hasTag(ob.Tags, p) {
-		return true
-	}
-	if len(ob.Tags) == 0 {
-		return p != "C13" || true
-	}
-	return false
+	return true
 }
 
 type oblSummary struct {
@@ -117,6 +114,7 @@ type propRun struct {
 	trivial   int
 	vacuity   map[string]int
 	retried   int
+	excluded  []string
 }
 
 func selectFunctions(p *Program, prop string) []string {
@@ -437,11 +435,18 @@ func cmdCheck(cfg Config, prop, tier string) int {
 	findings := loadFindings(cfg)
 	base := loadBaseline(cfg).Props[prop]
 	known := map[string]Finding{}
+	knownOther := map[string]string{} // recorded under another property: reported by that property's check only
 	knownNames := map[string]bool{}
 	for _, f := range findings {
-		if f.Property == prop && f.Status == "known" {
-			known[f.Obligation] = f
+		// a recorded defect is the same defect under whichever property's check meets its obligation
+		// (every obligation of a selected function counts for the property, see relevant())
+		if f.Status == "known" {
 			knownNames[f.Obligation] = true
+			if f.Property == prop {
+				known[f.Obligation] = f
+			} else {
+				knownOther[f.Obligation] = f.Property
+			}
 		}
 	}
 	pr := runProperty(p, prop, budgetFor(tier), knownNames, base)
@@ -512,9 +517,15 @@ func cmdCheck(cfg Config, prop, tier string) int {
 	for _, k := range vacuous {
 		report(k+"#requires-sat:preconditions-satisfiable", "the preconditions assumed for this function are contradictory: every obligation of it holds vacuously", nil, false)
 	}
+	var excluded []string
 	for _, name := range pr.order {
 		s := pr.summaries[name]
 		seen[name] = true
+		if op, ok := knownOther[name]; ok && s.Status != "unsat" {
+			// a recorded defect that belongs to another property's statement: that property's check reports it
+			excluded = append(excluded, name+" (known finding of "+op+")")
+			continue
+		}
 		switch s.Status {
 		case "unsat":
 			discharged++
@@ -578,12 +589,13 @@ func cmdCheck(cfg Config, prop, tier string) int {
 			fmt.Printf("NOTE contract without function: %s\n", m)
 		}
 	}
+	pr.excluded = excluded
 	writeEvidence(cfg, p, pr, tier, seed, violations, discharged, undecided, knownHit, time.Since(t0).Seconds())
 	if violations > 0 {
 		return 1
 	}
 	fmt.Printf("OK property=%s obligations=%d discharged=%d known_findings=%d undecided=%d functions=%d wall=%.1fs\n",
-		prop, len(pr.order)-len(knownHit), discharged, len(knownHit), len(undecided), len(pr.reports), time.Since(t0).Seconds())
+		prop, len(pr.order)-len(knownHit)-len(excluded), discharged, len(knownHit), len(undecided), len(pr.reports), time.Since(t0).Seconds())
 	return 0
 }
 
@@ -705,7 +717,8 @@ func writeEvidence(cfg Config, p *Program, pr *propRun, tier string, seed, viola
 	cov := map[string]interface{}{
 		// obligations listed in known_findings.json (genuine, recorded defects) are reported separately
 		// and are not part of the proof claim
-		"obligations":              len(pr.order) - len(knownHit),
+		"obligations":              len(pr.order) - len(knownHit) - len(pr.excluded),
+		"excluded_known_findings_of_other_properties": pr.excluded,
 		"discharged":               discharged,
 		"checker_cmd":              fmt.Sprintf("/verif/check %s --tier %s", pr.prop, tier),
 		"trusted_base":             tb,
